@@ -7,7 +7,7 @@ open CliConfig Drv
 Input, one op per line, fields separated by `|`; every string is a comma-separated list of
 code points (empty field = empty string); optional strings use `~` for `None`:
 
-    env-add|URL|0/1|MINVER?      env-upsert|URL|0/1|MINVER?     env-switch|URL     env-del|URL
+    env-add|URL|0/1|MINVER?      env-upsert|URL|0/1|MINVER?     env-switch|URL     env-del|URL     probe|0/1|MINVER?
     create-token|PROJECT|KEY?    create-oidc|PROJECT|UID|EMAIL|TOK
     select|NAME   select-any     delete|NAME   set-project|NAME|PROJECT
     update-key|NAME|KEY?|KEYID?  destroy      reset (harness only: back to a fresh database)
@@ -43,6 +43,7 @@ def parseOp? (line : String) : Option Op :=
   | ["set-project", n, p] => do some (.setProject (← parseStr? n) (← parseStr? p))
   | ["update-key", n, k, kid] => do some (.updateKey (← parseStr? n) (← parseOpt? k) (← parseOpt? kid))
   | ["destroy"] => some .destroy
+  | ["probe", ra, mv] => do some (.probe (← parseBool? ra) (← parseOpt? mv))
   | _ => none
 
 def showRes : Res → String
